@@ -88,14 +88,14 @@ theorem C01_owner_change (s s' : St) (ev : Ev) (m : Nat) (h : step s ev = .ok s'
             exact ⟨no, hd, b, rfl, c1, c2, c3, c3⟩
     · exfalso; apply hne; simp [hm, Ne.symm hmm, hmm]
   all_goals (exfalso; apply hne)
-  case semSub sm n ok b => simp only [effSemSub]; split <;> simp [hm]
+  case semSub sm n ok b => simp only [effSemSub]; split <;> simp [setTh, hm]
   case sleep t q dl =>
     simp only [effSleep]; cases q <;> (simp only []; split <;> simp [setTh, hm])
   case intrNoSleep t st e b => simp only [effIntrNoSleep]; split <;> simp [setTh, hm]
   case wakeTimeout t => simp [effWakeTimeout, dequeue, setTh, hm]; split <;> simp [hm]
   case wakeIntr t e b => simp [effWakeIntr, dequeue, setTh, hm]; split <;> simp [hm]
   all_goals simp [effCreate, effDie, effCall, effSetShutdown, effResume, effYield, effRet, effSemInit, effSemAdd,
-      effSemResume, effSemPass, setTh, hm]
+      effSemResume, effSemPass, effMutexInit, setTh, hm]
 
 /-! ### wait-queue bookkeeping and "a free mutex has no parked locker" -/
 
@@ -244,9 +244,15 @@ theorem eff_invQ (s : St) (e : Ev) (hp : pre s e = none) (h : InvQ s) : InvQ (ef
   case retNotify t c r a => exact h
   case quiescent => exact h
   case tick n => exact ⟨h.mem, h.nodup, h.held⟩
-  case semInit sm c => exact ⟨h.mem, h.nodup, h.held⟩
+  case semInit sm c io => exact ⟨h.mem, h.nodup, h.held⟩
+  case mutexInit m => exact ⟨h.mem, h.nodup, h.held⟩
   case semAdd sm n c => exact ⟨h.mem, h.nodup, h.held⟩
-  case semSub sm n ok by_ => unfold effSemSub; split; exact ⟨h.mem, h.nodup, h.held⟩; exact h
+  case semSub sm n ok by_ =>
+    have h1 : InvQ (setTh s by_ { s.th by_ with subOk := ok }) :=
+      invQ_setTh_same s h by_ _ rfl rfl (fun m to ho => Or.inl ho)
+    unfold effSemSub; split
+    · exact ⟨h1.mem, h1.nodup, h1.held⟩
+    · exact h1
   case semResume sm d t => exact ⟨h.mem, h.nodup, h.held⟩
   case semPass sm c => exact ⟨h.mem, h.nodup, h.held⟩
   case mutexTry m ok t =>
